@@ -2,9 +2,11 @@ package main
 
 import (
 	"context"
+	"errors"
 	"fmt"
 	"reflect"
 	"strings"
+	"sync"
 	"time"
 
 	bigbuff "github.com/joeycumines/go-bigbuff"
@@ -26,11 +28,32 @@ func execAttempt(t *trace, script []string) {
 		count, rateUs, pace, cancelUs := atoi(f[1]), atoi(f[2]), atoi(f[3]), atoi(f[4])
 		t.Line(line, "ok")
 		log := &evlog.Log{}
-		ctx, cancel := context.WithCancel(context.Background())
+		// how the context ends (by seed): explicit cancel, a deadline, or a context type of the caller's with its own error
+		mode := atoi(f[5]) % 3
+		var ctx context.Context
+		var cancel context.CancelFunc
 		pre := 0
-		if cancelUs < 0 {
-			cancel()
-			pre = 1
+		switch mode {
+		case 1:
+			d := time.Duration(cancelUs) * time.Microsecond
+			if cancelUs < 0 {
+				d = -time.Second
+				pre = 1
+			}
+			ctx, cancel = context.WithDeadline(context.Background(), time.Now().Add(d))
+		case 2:
+			cc := &customCtx{done: make(chan struct{})}
+			ctx, cancel = cc, cc.end
+			if cancelUs < 0 {
+				cancel()
+				pre = 1
+			}
+		default:
+			ctx, cancel = context.WithCancel(context.Background())
+			if cancelUs < 0 {
+				cancel()
+				pre = 1
+			}
 		}
 		var chPtr uintptr
 		exited := make(chan struct{}, 1)
@@ -76,9 +99,14 @@ func execAttempt(t *trace, script []string) {
 			go recvLoop()
 		}
 		if cancelUs >= 0 {
-			time.Sleep(time.Duration(cancelUs) * time.Microsecond)
-			log.Add("cancelling")
-			cancel()
+			if mode == 1 {
+				<-ctx.Done() // the deadline passes
+				log.Add("cancelling")
+			} else {
+				time.Sleep(time.Duration(cancelUs) * time.Microsecond)
+				log.Add("cancelling")
+				cancel()
+			}
 			log.Add("cancelled")
 		}
 		stuck := false
@@ -110,6 +138,30 @@ func execAttempt(t *trace, script []string) {
 			continue
 		}
 		t.Line(fmt.Sprintf("final %d", n), "ok")
+	}
+}
+
+// customCtx is a caller-defined context whose error is neither Canceled nor DeadlineExceeded.
+type customCtx struct {
+	mu   sync.Mutex
+	done chan struct{}
+	err  error
+}
+
+func (c *customCtx) Deadline() (time.Time, bool) { return time.Time{}, false }
+func (c *customCtx) Done() <-chan struct{}       { return c.done }
+func (c *customCtx) Value(any) any               { return nil }
+func (c *customCtx) Err() error {
+	c.mu.Lock()
+	defer c.mu.Unlock()
+	return c.err
+}
+func (c *customCtx) end() {
+	c.mu.Lock()
+	defer c.mu.Unlock()
+	if c.err == nil {
+		c.err = errors.New("ended by the caller")
+		close(c.done)
 	}
 }
 
